@@ -65,7 +65,7 @@ if len(sys.argv) > 1 and sys.argv[1] == "with06":
      "technique": "deterministic simulation (single actor, rejected operations as the only faults): seeded search over conversion histories on one stored PSD, every step compared with the rendering of one fixed canonical two-sided reference model",
      "level_claimed": {
       "category": "exploration",
-      "text": "Seeded exploration of conversion histories: all sequences over {onesided, twosided, centerdc} up to length 4 (sides assignments and get_converted_psd) for real and complex data, NFFT even and odd, basis / distinct-value / computed PSD vectors, interleaved with reads, rejected operations and re-based psd assignments, plus chains of the tools helpers and arma2psd(sides='centerdc'); each step must equal the rendering of one canonical two-sided model tied to the object's own frequencies().",
+      "text": "Seeded exploration of conversion histories: all sequences over {onesided, twosided, centerdc} up to length 4 (sides assignments, with get_converted_psd for every target after every step) for real and complex data, NFFT even and odd, every basis vector plus distinct-value, random, integer, narrow-dtype, signed, inf/zero-containing and complex-valued PSD vectors; a grid of every NFFT up to 512 (4096 thorough) x eleven sampling rates for floating-point axis arithmetic; random histories on base Spectrum objects and on computed PSDs of all twelve estimator classes interleaving conversions with reads, rejected requests, re-based psd assignments, no-op re-assignments and invalidating assignments (the model is then re-based on a fresh object), plus chains of the tools helpers and arma2psd(sides='centerdc'); each step must equal the rendering of one canonical two-sided model tied to the object's own frequencies().",
       "design_ref": "DESIGN.md section 5"
      },
      "level_note": "Trusted base: the 40-line canonical model (refmodel.canonical_from / render); exact binary halving (values kept away from subnormals)."
